@@ -64,6 +64,7 @@ type guard struct {
 	class string
 	desc  string
 	via   string // continue | enclosing-if | switch-clause
+	holds bool   // the atom, as written, is true on this path
 }
 
 // breakTarget resolves an unlabeled/labeled break or continue to its statement.
@@ -423,9 +424,11 @@ func (c *Ctx) guardsOf(d *declInfo, li *loopInfo, stmt ast.Node, via string) []g
 			if via == "enclosing" {
 				skipWhenTrue = !inBody
 			}
-			for _, g := range c.classifyCond(d, li, s, skipWhenTrue) {
-				g.via = via
-				out = append(out, g)
+			for _, alt := range c.classifyCond(d, li, s, skipWhenTrue) {
+				for _, g := range alt {
+					g.via = via
+					out = append(out, g)
+				}
 			}
 		case *ast.CaseClause:
 			// the step sits in one clause of a switch: elements taking other clauses skip it
@@ -463,39 +466,51 @@ func (c *Ctx) guardsOf(d *declInfo, li *loopInfo, stmt ast.Node, via string) []g
 	return uniq
 }
 
-// classifyCond splits a condition into atoms and classifies each.
-// skipWhenTrue: the element is skipped when the whole condition is true (else: when false).
-func (c *Ctx) classifyCond(d *declInfo, li *loopInfo, ifs *ast.IfStmt, skipWhenTrue bool) []guard {
-	var atoms []ast.Expr
-	var split func(e ast.Expr, pos bool)
-	neg := map[ast.Expr]bool{}
-	split = func(e ast.Expr, pos bool) {
-		switch x := e.(type) {
-		case *ast.ParenExpr:
-			split(x.X, pos)
-			return
-		case *ast.UnaryExpr:
-			if x.Op == token.NOT {
-				split(x.X, !pos)
-				return
-			}
-		case *ast.BinaryExpr:
-			if x.Op == token.LAND || x.Op == token.LOR {
-				split(x.X, pos)
-				split(x.Y, pos)
-				return
+// classifyCond turns "the condition evaluates to `want`" into a disjunction of conjunctions of
+// classified atoms (DNF): each alternative is one way for the element to take that branch, and
+// each alternative has to be justified on its own (a skip under `A || B` needs a reason for A
+// and a reason for B).
+func (c *Ctx) classifyCond(d *declInfo, li *loopInfo, ifs *ast.IfStmt, want bool) [][]guard {
+	var dnf func(e ast.Expr, want bool) [][]guard
+	cross := func(a, b [][]guard) [][]guard {
+		var out [][]guard
+		for _, x := range a {
+			for _, y := range b {
+				out = append(out, append(append([]guard{}, x...), y...))
 			}
 		}
-		atoms = append(atoms, e)
-		neg[e] = !pos
+		return out
 	}
-	split(ifs.Cond, skipWhenTrue)
-	var out []guard
-	for _, a := range atoms {
-		cls, desc := c.classifyAtom(d, li, ifs, a, neg[a])
-		out = append(out, guard{pos: a.Pos(), class: cls, desc: desc})
+	dnf = func(e ast.Expr, want bool) [][]guard {
+		switch x := e.(type) {
+		case *ast.ParenExpr:
+			return dnf(x.X, want)
+		case *ast.UnaryExpr:
+			if x.Op == token.NOT {
+				return dnf(x.X, !want)
+			}
+		case *ast.BinaryExpr:
+			switch x.Op {
+			case token.LAND:
+				if want {
+					return cross(dnf(x.X, true), dnf(x.Y, true))
+				}
+				return append(dnf(x.X, false), cross(dnf(x.X, true), dnf(x.Y, false))...)
+			case token.LOR:
+				if want {
+					return append(dnf(x.X, true), cross(dnf(x.X, false), dnf(x.Y, true))...)
+				}
+				return cross(dnf(x.X, false), dnf(x.Y, false))
+			}
+		}
+		cls, desc := c.classifyAtom(d, li, ifs, e, !want)
+		return [][]guard{{{pos: e.Pos(), class: cls, desc: desc, holds: want}}}
 	}
-	return out
+	alts := dnf(ifs.Cond, want)
+	if len(alts) > 16 {
+		alts = alts[:16]
+	}
+	return alts
 }
 
 // classifyAtom returns the structural class of one atomic condition. `negated` tells whether
@@ -1004,12 +1019,16 @@ func (c *Ctx) enumSkipPaths(d *declInfo, li *loopInfo, labels map[string]ast.Stm
 				return []outcome{{st: in}}
 			}
 			var res []outcome
-			res = append(res, run(x.Body.List, withDecision(in, c.classifyCond(d, li, x, true)))...)
-			neg := withDecision(in, c.classifyCond(d, li, x, false))
-			if x.Else != nil {
-				res = append(res, one(x.Else, neg)...)
-			} else {
-				res = append(res, outcome{st: neg})
+			for _, alt := range c.classifyCond(d, li, x, true) {
+				res = append(res, run(x.Body.List, withDecision(in, alt))...)
+			}
+			for _, alt := range c.classifyCond(d, li, x, false) {
+				neg := withDecision(in, alt)
+				if x.Else != nil {
+					res = append(res, one(x.Else, neg)...)
+				} else {
+					res = append(res, outcome{st: neg})
+				}
 			}
 			return res
 		case *ast.SwitchStmt:
